@@ -43,7 +43,13 @@ BadName == { [pos |-> "bad_macro_name", ref |-> "noat", pattern |-> L(<<S("push"
               defs |-> <<MacroDef("noat", <<>>, S("push"))>> \o Defs],
              [pos |-> "bad_macro_name_used", ref |-> "noat", pattern |-> L(<<S("noat")>>),
               defs |-> Defs \o <<MacroDef("noat", <<>>, L(<<S("push")>>))>>] }
-Base == Direct \cup InName \cup InBody \cup BadName
+\* a string macro whose whole body is itself a reference (@f -> r), used in every position; the macro it forwards to is
+\* listed after it (expanded by a later pass), before it (no pass left: must be reported), or does not exist
+Fwd(r) == MacroDef("@f", <<>>, S(r))
+Forward == UNION { { [pos |-> "forward_" \o pp[1], ref |-> r, pattern |-> pp[2], defs |-> d]
+                     \* (a string macro as the key of an operand list is not a supported use form: the expansion itself fails)
+                     : pp \in { q \in Positions("@f") : q[1] # "key_body" }, d \in { <<Fwd(r)>> \o Defs, Defs \o <<Fwd(r)>> } } : r \in {"@a", "@s", "@x"} }
+Base == Direct \cup InName \cup InBody \cup BadName \cup Forward
 \* definitions in the rule file, or all of them in one extra macro file
 Docs == { [pos |-> b.pos, ref |-> b.ref, pattern |-> b.pattern,
            macros |-> IF inFile THEN b.defs ELSE <<>>, xfiles |-> IF inFile THEN <<>> ELSE <<b.defs>>,
